@@ -172,9 +172,9 @@ Props/C12.vos Props/C12.vok Props/C12.required_vos: Props/C12.v Lib/NumOps.vos G
 Props/C13.vo Props/C13.glob Props/C13.v.beautified Props/C13.required_vo: Props/C13.v Lib/NumOps.vo Gen/GenProto.vo Gen/GenArgs.vo Gen/GenStruct.vo Model/Core.vo Spec/ProtoSpec.vo Proofs/CoreIdent.vo Proofs/CoreLife.vo Gen/GenParams.vo Model/OrderHist.vo Model/Hist.vo Proofs/HistProofs.vo
 Props/C13.vio: Props/C13.v Lib/NumOps.vio Gen/GenProto.vio Gen/GenArgs.vio Gen/GenStruct.vio Model/Core.vio Spec/ProtoSpec.vio Proofs/CoreIdent.vio Proofs/CoreLife.vio Gen/GenParams.vio Model/OrderHist.vio Model/Hist.vio Proofs/HistProofs.vio
 Props/C13.vos Props/C13.vok Props/C13.required_vos: Props/C13.v Lib/NumOps.vos Gen/GenProto.vos Gen/GenArgs.vos Gen/GenStruct.vos Model/Core.vos Spec/ProtoSpec.vos Proofs/CoreIdent.vos Proofs/CoreLife.vos Gen/GenParams.vos Model/OrderHist.vos Model/Hist.vos Proofs/HistProofs.vos
-Props/C14.vo Props/C14.glob Props/C14.v.beautified Props/C14.required_vo: Props/C14.v Lib/NumOps.vo Gen/GenChunk.vo Model/Chunk.vo Spec/ChunkSpec.vo Proofs/ChunkPartition.vo Proofs/ChunkSizes.vo
-Props/C14.vio: Props/C14.v Lib/NumOps.vio Gen/GenChunk.vio Model/Chunk.vio Spec/ChunkSpec.vio Proofs/ChunkPartition.vio Proofs/ChunkSizes.vio
-Props/C14.vos Props/C14.vok Props/C14.required_vos: Props/C14.v Lib/NumOps.vos Gen/GenChunk.vos Model/Chunk.vos Spec/ChunkSpec.vos Proofs/ChunkPartition.vos Proofs/ChunkSizes.vos
+Props/C14.vo Props/C14.glob Props/C14.v.beautified Props/C14.required_vo: Props/C14.v Lib/NumOps.vo Gen/GenChunk.vo Model/Chunk.vo Spec/ChunkSpec.vo Proofs/ChunkPartition.vo Proofs/ChunkSizes.vo Gen/GenParams.vo
+Props/C14.vio: Props/C14.v Lib/NumOps.vio Gen/GenChunk.vio Model/Chunk.vio Spec/ChunkSpec.vio Proofs/ChunkPartition.vio Proofs/ChunkSizes.vio Gen/GenParams.vio
+Props/C14.vos Props/C14.vok Props/C14.required_vos: Props/C14.v Lib/NumOps.vos Gen/GenChunk.vos Model/Chunk.vos Spec/ChunkSpec.vos Proofs/ChunkPartition.vos Proofs/ChunkSizes.vos Gen/GenParams.vos
 Props/C15.vo Props/C15.glob Props/C15.v.beautified Props/C15.required_vo: Props/C15.v Lib/NumOps.vo Gen/GenProto.vo Gen/GenParams.vo Model/Core.vo Spec/ProtoSpec.vo Proofs/CoreBound.vo
 Props/C15.vio: Props/C15.v Lib/NumOps.vio Gen/GenProto.vio Gen/GenParams.vio Model/Core.vio Spec/ProtoSpec.vio Proofs/CoreBound.vio
 Props/C15.vos Props/C15.vok Props/C15.required_vos: Props/C15.v Lib/NumOps.vos Gen/GenProto.vos Gen/GenParams.vos Model/Core.vos Spec/ProtoSpec.vos Proofs/CoreBound.vos
